@@ -199,7 +199,8 @@ def ends_dirty(h):
 #   target     (t<idx>, rp2, m<idx>)      hosts a b c d
 #   sibling    (t<idx>, autogen, m<idx>)  hosts a b c   (same measurement name under the default policy)
 #   bystander  (t<idx>, autogen, n<idx>)  hosts a b c
-#   other db   (t<idx>b, autogen, m<idx>) hosts a b c   (only if one of the drops is DROP DATABASE)
+#   other db   (c13ob, autogen, m<idx>)   hosts a b c   (only if one of the drops is DROP DATABASE; the other database is
+#                                                        shared by the histories of a server: nothing is dropped in it)
 # so that every statement of the menu can be the first or the second drop on the same target.
 D1 = ["s_some", "s_all", "measurement", "rp", "database"]
 RCS = ["none", "same", "new"]  # nothing | the same series again | new series (tag set host only); both re-create what is missing
@@ -249,6 +250,9 @@ def tokens_two(h):
     return t + TAILS[h["tail"]]
 
 
+OTHER_DB = "c13ob"
+
+
 def uses_otherdb(h):
     return "database" in (h["d1"], h["d2"])
 
@@ -258,7 +262,7 @@ def containers_two(h):
     db, m, n = dbname(h), mname(h), nname(h)
     c = [("", db, RP2, m, True), ("bystander:", db, DEF_RP, n, False), ("autogen:", db, DEF_RP, m, False)]
     if uses_otherdb(h):
-        c.append(("otherdb:", db + "b", DEF_RP, m, False))
+        c.append(("otherdb:", OTHER_DB, DEF_RP, m, False))
     return c
 
 
@@ -270,7 +274,7 @@ def load_rows(h, tis):
         return [(mst, skey(x), TS[ti], {"v": val(x, ti, off), "w": wval(x, ti)}) for x in hosts for ti in tis]
     out = [(db, DEF_RP, rows(m, "abc", 0) + rows(n, "abc", 1000)), (db, RP2, rows(m, "abcd", 2000))]
     if uses_otherdb(h):
-        out.append((db + "b", DEF_RP, rows(m, "abc", 3000)))
+        out.append((OTHER_DB, DEF_RP, rows(m, "abc", 3000)))
     return out
 
 
@@ -297,7 +301,7 @@ def simulate(h):
             ref.create_db(db)
             ref.create_rp(db, RP2)
             if uses_otherdb(h):
-                ref.create_db(db + "b")
+                ref.create_db(OTHER_DB)
         elif tok[0] == "W":
             for d, rp, rows in load_rows(h, tok[1]):
                 for mst, series, ts, fields in rows:
@@ -349,8 +353,9 @@ def enumerate_two(tier):
     for lay in layouts:
         for c in combos_two():
             for mid, tail, restart in variants:
-                # thorough: two servers (by layout) so that neither carries more than ~750 databases
-                srv = "D" if tier != "quick" and lay in ("mixed", "reopened", "prior") else "C"
+                # two servers (by layout): CREATE DATABASE has to be issued one at a time per server (see the driver), and in
+                # thorough neither server carries more than ~750 databases
+                srv = "D" if lay in ("mixed", "reopened", "prior") else "C"
                 hs.append(dict(c, srv=srv, two=1, layout=lay, mid=mid, tail=tail, restart=restart))
     return hs
 
